@@ -271,6 +271,18 @@ theorem C13_first_match (W : Cfg) (tag k : Nat) (cands : List Tmpl) (dst so : Bo
       d = DNA.norm none [DNA.norm none [DNA.norm (some (.idx i)) [child]]] :=
   oneof_encode_first_match W tag k cands dst so v d hW h
 
+/-- Class hierarchies: a candidate matches a value only if the classes are *exactly* the same
+(`type(input) is type(template)`, object_template.py), not when the value is an instance of a
+subclass with the same field keys. With `class D(A)` (class numbers 3 and 0, same fields) the value
+decoded from the `D` candidate is encoded to the `D` candidate, also when the `A` candidate comes first. -/
+example : encode noFilter
+    (.choice 1 true 1 [.node (.obj 0 ["x", "y"]) [.const (.int 8), .const (.int 9)],
+                       .node (.obj 3 ["x", "y"]) [.const (.int 8), .const (.int 9)]] true false)
+    (.node (.obj 3 ["x", "y"]) [.const (.int 8), .const (.int 9)]) = .ok (.mk (some (.idx 1)) []) := by rfl
+example : headDistinct noFilter
+    (.choice 1 true 1 [.node (.obj 0 ["x", "y"]) [.const (.int 8), .const (.int 9)],
+                       .node (.obj 3 ["x", "y"]) [.const (.int 8), .const (.int 9)]] true false) = true := by decide
+
 /-! ## Dynamic evaluation (`pg.hyper.trace` / `DynamicEvaluationContext`) -/
 
 /-- A function that requests the placeholders `ps` one after the other is modelled as the template
